@@ -190,6 +190,46 @@ pub fn run_c06(out: &mut Out, tier: &str, seed: u64) {
                 // fixpoint and agreement of Display / to_string / to_vec (compared inside the implementation)
                 let same = s1 == s2 && s1 == disp && s1 == vecs;
                 out.case("expect", &["fixpoint+display+to_vec", &h], if same { "true" } else { "false" }, true);
+                // ... and every writer route gives the same bytes, also through sinks that accept a few bytes per call
+                let routes = guarded(|| -> Result<bool, String> {
+                    let v: Value = sonic_rs::from_slice(&doc).map_err(|e| e.to_string())?;
+                    struct Chunky(Vec<u8>, usize);
+                    impl std::io::Write for Chunky {
+                        fn write(&mut self, b: &[u8]) -> std::io::Result<usize> {
+                            let n = b.len().min(self.1).max(usize::from(!b.is_empty()));
+                            self.0.extend_from_slice(&b[..n]);
+                            Ok(n)
+                        }
+                        fn flush(&mut self) -> std::io::Result<()> {
+                            Ok(())
+                        }
+                    }
+                    let mut all = true;
+                    for chunk in [1usize, 3, 7, 64] {
+                        let mut sink = Chunky(Vec::new(), chunk);
+                        sonic_rs::to_writer(sonic_rs::writer::BufferedWriter::new(&mut sink), &v).map_err(|e| e.to_string())?;
+                        all &= sink.0 == s1.as_bytes();
+                        let mut sink = Chunky(Vec::new(), chunk);
+                        {
+                            let w = std::io::BufWriter::with_capacity(5, &mut sink);
+                            sonic_rs::to_writer(sonic_rs::writer::BufferedWriter::new(w), &v).map_err(|e| e.to_string())?;
+                        }
+                        all &= sink.0 == s1.as_bytes();
+                        let mut sink = Chunky(Vec::new(), chunk);
+                        sonic_rs::to_writer_pretty(sonic_rs::writer::BufferedWriter::new(&mut sink), &v).map_err(|e| e.to_string())?;
+                        all &= sink.0 == pretty.as_bytes();
+                    }
+                    let mut bm = bytes::BytesMut::new();
+                    sonic_rs::to_writer(bytes::BufMut::writer(&mut bm), &v).map_err(|e| e.to_string())?;
+                    all &= &bm[..] == s1.as_bytes();
+                    Ok(all)
+                });
+                out.case("expect", &["to_writer through every sink gives the bytes of to_string", &h], &match routes {
+                    Ok(Ok(true)) => "true".to_string(),
+                    Ok(Ok(false)) => "false".to_string(),
+                    Ok(Err(e)) => format!("error:{e}"),
+                    Err(p) => format!("panic:{p}"),
+                }, true);
             }
         }
         // raw-number mode: every number literal is reproduced verbatim
